@@ -62,6 +62,7 @@ type iw struct {
 	w       io.Writer
 	prefix  []byte
 	partial bool // true if next line's indent already written
+	cut     int  // bytes of the current line's indent that a short write got out (partial is false then)
 }
 
 // Write implements io.Writer.
@@ -77,7 +78,11 @@ func (w *iw) Write(buf []byte) (int, error) {
 		lines = append([][]byte{{}}, lines...)
 	}
 	joined := bytes.Join(lines, w.prefix)
-	w.partial = joined[len(joined)-1] != '\n'
+	// What an earlier short write got out of this line's indent is not
+	// written again; it counts as the beginning of this write.
+	was, cut := w.partial, w.cut
+	joined = joined[cut:]
+	w.partial, w.cut = joined[len(joined)-1] != '\n', 0
 
 	n, err := w.w.Write(joined)
 	if err == nil && n < len(joined) {
@@ -86,10 +91,43 @@ func (w *iw) Write(buf []byte) (int, error) {
 		err = io.ErrShortWrite
 	}
 	if err != nil {
-		return actualWrittenSize(n, len(w.prefix), lines), err
+		if n < 0 {
+			n = 0
+		}
+		// The line state follows what was emitted, not what was intended:
+		// the caller continues with the bytes that were not counted.
+		w.partial, w.cut = lineState(n+cut, len(w.prefix), lines, was)
+		return actualWrittenSize(n+cut, len(w.prefix), lines), err
 	}
 
 	return len(buf), nil
+}
+
+// lineState returns the state of the output line after the first underlay
+// bytes of lines joined by a prefix of the given length: whether the line has
+// its indent and, if it has only the beginning of it, how many bytes.  was is
+// the state before the first element.
+func lineState(underlay, prefix int, lines [][]byte, was bool) (partial bool, cut int) {
+	partial = was
+	remain := underlay
+	for i, line := range lines {
+		if i > 0 {
+			// The prefix separates the elements of lines.
+			if remain < prefix {
+				return false, remain
+			}
+			remain -= prefix
+			partial = true
+		}
+		if remain < len(line) {
+			return partial, 0
+		}
+		remain -= len(line)
+		if len(line) > 0 {
+			partial = line[len(line)-1] != '\n'
+		}
+	}
+	return partial, 0
 }
 
 func actualWrittenSize(underlay, prefix int, lines [][]byte) int {
